@@ -13,3 +13,4 @@ for id in "$@"; do
 done
 git -C /repo worktree remove --force $wt
 git checkout -q -- evidence 2>/dev/null
+./check --setup > /dev/null 2>&1     # regenerate coq/Gen/Facts.v from the real /repo (the checks above regenerated it from the changed tree)
